@@ -5,8 +5,10 @@ From Coq Require Import String.
 From LiquidVerif Require Import Prelude Recover2 Recover2_Proofs.
 Local Open Scope string_scope. Local Open Scope list_scope.
 
-(* lax mode: EVERY token stream parses, whatever the block nesting limit, and no warning is issued *)
-Theorem C93_lax_parse_total : forall lim ts, exists b l, parse Lax lim ts = Ok (b, l) /\ emitted l = [].
+(* lax mode: EVERY token stream parses, whatever the block nesting limit, and no warning is issued; the only exception that can
+   leave the parser is a non-Liquid one raised by an expression parser (Tag.get_node catches LiquidError only; see C02) *)
+Theorem C93_lax_parse_total : forall lim ts,
+  (exists b l, parse Lax lim ts = Ok (b, l) /\ emitted l = []) \/ (exists e, parse Lax lim ts = Err e /\ is_liquid e = false).
 Proof. exact lax_parse_total. Qed.
 Print Assumptions C93_lax_parse_total.
 
@@ -21,16 +23,17 @@ Print Assumptions C93_lax_render_total.
 Theorem C93_lax_never_raises_liquid : forall lim ts,
   match run_recover (mk_case Lax lim ts) with
   | OOut _ n => n = 0
-  | ORenderErr e => is_liquid e = false
-  | _ => False
+  | OParseErr e | ORenderErr e => is_liquid e = false
+  | OFuel => False
   end.
 Proof. exact run_lax_never_raises_liquid. Qed.
 Print Assumptions C93_lax_never_raises_liquid.
 
 (* warn mode parses to the same tree as lax mode, and its warnings are exactly the errors lax mode suppressed, in order *)
 Theorem C93_warn_is_lax_plus_warnings : forall lim ts,
-  exists b l, parse Lax lim ts = Ok (b, l) /\ emitted l = [] /\
-              parse Warn lim ts = Ok (b, {| emitted := suppressed l; suppressed := suppressed l |}).
+  (exists b l, parse Lax lim ts = Ok (b, l) /\ emitted l = [] /\
+               parse Warn lim ts = Ok (b, {| emitted := suppressed l; suppressed := suppressed l |})) \/
+  (exists e, parse Lax lim ts = Err e /\ parse Warn lim ts = Err e /\ is_liquid e = false).
 Proof. exact warn_parse_is_lax_parse. Qed.
 Print Assumptions C93_warn_is_lax_plus_warnings.
 
@@ -44,13 +47,17 @@ Print Assumptions C93_warn_render_is_lax_plus_warnings.
 
 (* the observable form: same text, and the number of warnings is the number of errors suppressed while parsing and rendering *)
 Theorem C93_warn_run_is_lax_run : forall lim ts,
-  exists b l1, parse Lax lim ts = Ok (b, l1) /\
-    match render Lax b with
-    | Ok (t, l2) => run_recover (mk_case Lax lim ts) = OOut t 0 /\
-                    run_recover (mk_case Warn lim ts) = OOut t (List.length (suppressed l1) + List.length (suppressed l2))
-    | Err e => run_recover (mk_case Lax lim ts) = ORenderErr e /\ run_recover (mk_case Warn lim ts) = ORenderErr e /\ is_liquid e = false
-    | OutOfFuel => False
-    end.
+  match parse Lax lim ts with
+  | Ok (b, l1) =>
+      match render Lax b with
+      | Ok (t, l2) => run_recover (mk_case Lax lim ts) = OOut t 0 /\
+                      run_recover (mk_case Warn lim ts) = OOut t (List.length (suppressed l1) + List.length (suppressed l2))
+      | Err e => run_recover (mk_case Lax lim ts) = ORenderErr e /\ run_recover (mk_case Warn lim ts) = ORenderErr e /\ is_liquid e = false
+      | OutOfFuel => False
+      end
+  | Err e => run_recover (mk_case Lax lim ts) = OParseErr e /\ run_recover (mk_case Warn lim ts) = OParseErr e /\ is_liquid e = false
+  | OutOfFuel => False
+  end.
 Proof. exact run_warn_is_lax. Qed.
 Print Assumptions C93_warn_run_is_lax_run.
 
@@ -76,6 +83,21 @@ Print Assumptions C93_strict_success_invariant.
 Theorem C93_parse_progress : forall m lim f ts, S (tsize ts) <= f -> parse_fuel m lim f ts <> OutOfFuel.
 Proof. exact parse_progress. Qed.
 Print Assumptions C93_parse_progress.
+
+(* the two defects repaired for this property, as they were (fixes C03-when-list-strict, C03-lax-parse-stack-depth; the check
+   reproduces both on a tree without the repairs) *)
+Theorem C93_when_list_old_refuted :
+  let rs := RVal [] 0 in let rl := RVal [] 1 in
+  let ts := fun m => [TTag Ncase; TExpr (XOk (RVal [] 1)); TTag Nwhen; TExpr (XOk (when_value_old m rs rl)); TContent [104%N]; TTag Nendcase] in
+  run_recover (mk_case Strict 30 (ts Strict)) = OOut [] 0 /\ run_recover (mk_case Lax 30 (ts Lax)) = OOut [104%N] 0.
+Proof. exact when_list_old_refuted. Qed.
+Print Assumptions C93_when_list_old_refuted.
+
+Theorem C93_deep_nesting_old_refuted :
+  parse Lax 30 [TOutput; TExpr (XBad ERecursionError)] = Err ERecursionError /\
+  parse Lax 30 [TOutput; TExpr (XBad EContextDepth)] = Ok (BCons NIllegal BNil, {| emitted := []; suppressed := [EContextDepth] |}).
+Proof. exact deep_nesting_old_refuted. Qed.
+Print Assumptions C93_deep_nesting_old_refuted.
 
 (* ---- non-vacuity and reading aids (tests, not theorems) ---- *)
 Definition s (x : String.string) : str := slit x.
